@@ -428,18 +428,22 @@ fn used_vars_of(doc: &ExecDoc, op: &OpDef) -> std::collections::BTreeSet<String>
 /// Split a valid single-file document into a main file plus fragment files connected by `#import` lines.
 /// Returns (path, document) pairs; index 0 is the main file. Paths are relative to a project root.
 pub fn split_into_files(doc: &ExecDoc, rng: &mut Rng) -> Vec<(String, ExecDoc)> {
+    split_into_files_at(doc, rng, "ops/main.graphql", ["ops/frag_a.graphql", "ops/sub/frag_b.graphql", "shared/frag_c.graphql"])
+}
+
+/// the same with the file names given (none may start with `..`: relative import paths are computed between them)
+pub fn split_into_files_at(doc: &ExecDoc, rng: &mut Rng, main: &str, paths: [&str; 3]) -> Vec<(String, ExecDoc)> {
     let frags: Vec<FragDef> = doc.frags().cloned().collect();
     if frags.is_empty() || rng.chance(1, 3) {
-        return vec![("ops/main.graphql".into(), doc.clone())];
+        return vec![(main.into(), doc.clone())];
     }
-    let paths = ["ops/frag_a.graphql", "ops/sub/frag_b.graphql", "shared/frag_c.graphql"];
     let nfiles = rng.range(1, paths.len().min(frags.len()));
     // assign each fragment to main (index 0) or one of the fragment files
     let mut home: BTreeMap<String, usize> = BTreeMap::new();
     for f in &frags {
         home.insert(f.name.s.clone(), rng.below(nfiles + 1));
     }
-    let all_paths: Vec<String> = std::iter::once("ops/main.graphql".to_string()).chain(paths.iter().take(nfiles).map(|s| s.to_string())).collect();
+    let all_paths: Vec<String> = std::iter::once(main.to_string()).chain(paths.iter().take(nfiles).map(|s| s.to_string())).collect();
     let mut files: Vec<ExecDoc> = (0..=nfiles).map(|_| ExecDoc::default()).collect();
     for d in &doc.defs {
         match d {
